@@ -1378,9 +1378,11 @@ v("C19", "new-option", "cmd/protoc-gen-grpchan/protoc-gen-grpchan.go",
   """		case "module":""", """		case "module", "mod":""", "R4", "option-names", "an undocumented option alias is accepted")
 
 # ------------------------------------------------------------------ behaviour-preserving refactors (must stay silent)
-def silent_all(name, edits, why, props):
+def silent_all(name, edits, why, props, patch=None):
     for pr in props:
         d = {"why": why, "edits": edits, "property": pr, "expect": "silent"}
+        if patch:
+            d["patch"] = patch
         VARIANTS.append((pr, "silent-" + name, d))
 
 silent_all("rename-frame-helpers", [
@@ -2346,6 +2348,44 @@ v("C02", "write-failed-only-for-io-errors", "httpgrpc/server.go",
 	if _, isStatus := status.FromError(err); !isStatus {
 		s.writeFailed = true
 	}""", "R2", "set-on-every-failed-write", "the write-failed flag depends on the class of the error")
+
+v("C11", "renderer-default-moved-one-entry-forgotten", "httpgrpc/server.go", None, None, "R7", "call-of-field", "the default error renderer is applied where the options are built, except in HandleMethod", patch="seeded/C11-w4-m2/patch.diff", edits=[
+    {"file": "httpgrpc/server.go", "old": "type handlerOpts struct {", "new": "type handlerOpts struct { // options of one handler"},
+])
+silent_all("renderer-default-moved-to-construction", [
+    {"file": "httpgrpc/server.go", "old": """	var hOpts handlerOpts
+	for _, opt := range opts {
+		opt(&hOpts)
+	}
+	return handleMethod(svr, serviceName, desc, unaryInt, &hOpts)""", "new": """	return handleMethod(svr, serviceName, desc, unaryInt, newHandlerOpts(opts))"""},
+], "the same refactoring done completely: every place that builds the options applies the default", ["C11", "C14", "C02"], patch="seeded/C11-w4-m2/patch.diff")
+v("C13", "peer-address-from-forwarded-header", "httpgrpc/server.go",
+  "	pr := peer.Peer{Addr: strAddr(r.RemoteAddr)}", """	addr := r.RemoteAddr
+	if fwd := r.Header.Get("X-Forwarded-For"); fwd != "" {
+		addr = fwd
+	}
+	pr := peer.Peer{Addr: strAddr(addr)}""", "R3", "addr", "the handler's peer address can be chosen by the client through a header")
+v("C13", "empty-credentials-wipe-caller-metadata", "internal/call_options.go", None, None, "R2", "caller-metadata-kept-on-every-path", "NewOutgoingContext runs outside the len(md) > 0 block", patch="seeded/C13-w4-m2/patch.diff", edits=[
+    {"file": "internal/call_options.go", "old": "	return ctx, nil\n}", "new": "	return ctx, nil // unchanged\n}"},
+])
+v("C14", "setmetadata-deletes-status-headers", "httpgrpc/client.go",
+  "	hdr, err := asMetadata(h)\n", "	h.Del(\"X-GRPC-Status\")\n	hdr, err := asMetadata(h)\n", "R3", "reply-headers-only-read", "the status header is deleted from the reply before the status decoder reads it")
+v("C14", "status-code-parsed-unsigned", "httpgrpc/client.go",
+  "strconv.ParseInt(codeStrs[0], 10, 32)", "strconv.ParseUint(codeStrs[0], 10, 32)", "R3", "parse-accepts-what-is-written", "codes >= 2^31 travel as negative numbers and are rejected by ParseUint")
+silent_all("handler-metadata-appended-after-status", [
+    {"file": "httpgrpc/server.go", "old": """		toHeaders(sts.GetHeaders(), w.Header(), "")
+		toHeaders(sts.GetTrailers(), w.Header(), "X-GRPC-Trailer-")
+		if err != nil {""", "new": """		if err == nil {
+			toHeaders(sts.GetHeaders(), w.Header(), "")
+			toHeaders(sts.GetTrailers(), w.Header(), "X-GRPC-Trailer-")
+		}
+		if err != nil {"""},
+    {"file": "httpgrpc/server.go", "old": """			errHandler(r.Context(), st, w)
+			return""", "new": """			toHeaders(sts.GetHeaders(), w.Header(), "")
+			toHeaders(sts.GetTrailers(), w.Header(), "X-GRPC-Trailer-")
+			errHandler(r.Context(), st, w)
+			return"""},
+], "handler metadata appended (Header.Add) after the status header is set: the client reads the first value", ["C14", "C03", "C02", "C11"])
 
 # ------------------------------------------------------------------ wave-2 rules (C15-C20)
 v("C15", "methods-scratch-slice-reused", "server.go",
